@@ -115,7 +115,16 @@ impl RouterInfoApi {
         connected_at: &DateTime<Utc>,
         last_message_at: &Arc<RwLock<DateTime<Utc>>>,
     ) -> String {
+        // Don't trust external input, it could contain HTML or JavaScript
+        // which when we output it would be rendered in the client browser.
+        // The base path repeats the part of the request path that named the
+        // router, which can be its sysName.
+        let base_http_path =
+            html_escape::encode_double_quoted_attribute(&base_http_path);
+        let sys_name = html_escape::encode_safe(sys_name);
+        let sys_desc = html_escape::encode_safe(sys_desc);
         let sys_extra = sys_extra.join("|");
+        let sys_extra = html_escape::encode_safe(&sys_extra);
         let connected_at = connected_at.to_rfc3339();
         let last_message_at = last_message_at.read().unwrap().to_rfc3339();
         let router_bmp_metrics =
@@ -151,7 +160,12 @@ impl RouterInfoApi {
         for err in start.iter().chain(end.iter()) {
             writeln!(error_report, "  When: {}", err.when.to_rfc3339())
                 .unwrap();
-            writeln!(error_report, "  What: {}", err.msg).unwrap();
+            writeln!(
+                error_report,
+                "  What: {}",
+                html_escape::encode_safe(&err.msg)
+            )
+            .unwrap();
             writeln!(error_report, "  Soft: {}", err.recoverable).unwrap();
             if let Some(pcaptext) = &err.pcaptext {
                 writeln!(error_report, "  PCAP: {}", pcaptext).unwrap();
